@@ -1,7 +1,7 @@
 SPECIFICATION Spec
 CONSTANTS
-  OnlySubst = FALSE
-  MaxTok = 120
-  NSubst = 40
+  OnlySubst = TRUE
+  MaxTok = 400
+  NSubst = 12
 INVARIANT Emit
 CHECK_DEADLOCK FALSE
